@@ -1,6 +1,10 @@
 (* Proofs/Jar_proofs.v — lemmas about Model/Jar.v (property C16). *)
 From Coq Require Import String.
-From Verif Require Import Lib.Base Lib.PyStr Lib.Crypto Model.Jar.
+From Verif Require Import Lib.Base.
+From Verif Require Import Lib.PyStr.
+From Verif Require Import Lib.Crypto.
+From Verif Require Import Model.Jar.
+From Verif Require Import Model.JarCheck.
 
 (* ================================================================ association lists *)
 Lemma assoc_In' {V} k (d : list (pystr * V)) v : assoc k d = Some v -> In (k, v) d.
@@ -396,9 +400,9 @@ Proof.
   - destruct h.
     + destruct (do_request_uri g d st r cid) as [[st1 o1] v1] eqn:E.
       apply dru_frame in E as [E1 [E2 E3]].
-      destruct o1; try (inversion H; subst; repeat split; auto).
-      apply IH in H as [H1 [H2 H3]]. repeat split; [congruence| |auto].
-      intros x Hx. apply E2, H2, Hx.
+      destruct o1; try (inversion H; subst; repeat split; auto; fail).
+      apply IH in H as [G1 [G2 G3]]. repeat split; [congruence| |auto].
+      intros x Hx. apply E2, G2, Hx.
     + destruct (par_request_uri r); try (inversion H; subst; repeat split; auto; intros x Hx; exact Hx).
       apply IH in H. exact H.
     + destruct (post_parse g r cid); try (inversion H; subst; repeat split; auto; intros x Hx; exact Hx).
@@ -460,4 +464,422 @@ Proof.
     + destruct (par_request_uri r) eqn:E; try discriminate. apply IH in H. exact H.
     + destruct (post_parse g r cid) eqn:E; try discriminate. apply IH in H. exact H.
     + discriminate.
+Qed.
+
+(* ================================================================ the authorization endpoint *)
+Definition hooks_end_post (g : cfg) : Prop := exists pre, hooks g = (pre ++ [HPostParse])%list.
+Definition wf_clients (g : cfg) : Prop := forall ci, In ci (clients g) -> c_id ci <> [].
+
+Lemma find_client_In cs c ci : find_client cs c = Some ci -> In ci cs /\ c_id ci = c.
+Proof.
+  induction cs as [|x r IH]; cbn; [discriminate|].
+  destruct (str_eqb c (c_id x)) eqn:E.
+  - intro H; inversion H; subst. apply str_eqb_eq in E. auto.
+  - intro H. apply IH in H. tauto.
+Qed.
+
+Lemma authz_parse_cases g d st outer w st' o via :
+  authz_parse g d st outer w = (st', o, via) ->
+  (st' = st /\ via = None /\ forall r, o <> Acc r) \/
+  (exists p cid r1, verify_authz g p w = Acc r1 /\ run_hooks g d (hooks g) st r1 cid None = (st', o, via)).
+Proof.
+  unfold authz_parse. intro H.
+  destruct (authn_loop g (methods g) outer w) as [c m| | |t| |].
+  - match type of H with context [verify_authz g ?p w] => destruct (verify_authz g p w) eqn:E end;
+      try (left; inversion H; subst; repeat split; auto; intros r0; discriminate).
+    right. eauto.
+  - destruct (methods_configured g).
+    + left. inversion H; subst. repeat split; auto. intros r0; discriminate.
+    + match type of H with context [verify_authz g ?p w] => destruct (verify_authz g p w) eqn:E end;
+        try (left; inversion H; subst; repeat split; auto; intros r0; discriminate).
+      right. eauto.
+  - match type of H with context [verify_authz g ?p w] => destruct (verify_authz g p w) eqn:E end;
+      try (left; inversion H; subst; repeat split; auto; intros r0; discriminate).
+    right. eauto.
+  - left. inversion H; subst. repeat split; auto. intros r0; discriminate.
+  - left. inversion H; subst. repeat split; auto. intros r0; discriminate.
+  - left. inversion H; subst. repeat split; auto. intros r0; discriminate.
+Qed.
+
+Lemma authz_frame g d st outer w st' o via :
+  authz_parse g d st outer w = (st', o, via) ->
+  now st' = now st /\ db_incl st' st /\ (NoDup (db_keys st) -> NoDup (db_keys st')).
+Proof.
+  intro H. apply authz_parse_cases in H as [[-> _]|[p [cid [r1 [_ H]]]]].
+  - repeat split; auto. intros x Hx; exact Hx.
+  - eapply rh_frame; eauto.
+Qed.
+
+Lemma authz_via g d st outer w st' o u :
+  authz_parse g d st outer w = (st', o, Some u) ->
+  exists e, In (u, e) (par_db st) /\ (now st <= e_exp e)%Z /\ (NoDup (db_keys st) -> ~ In u (db_keys st')).
+Proof.
+  intro H. apply authz_parse_cases in H as [[_ [H _]]|[p [cid [r1 [_ H]]]]]; [discriminate|].
+  apply rh_via in H as [H|H]; [discriminate|exact H].
+Qed.
+
+(* what "authenticated before it takes effect" means for an accepted request r carrying the verified object v *)
+Definition authenticated (g : cfg) (r : req) (v : vreq) : Prop :=
+  exists c ci,
+    find_client (clients g) c = Some ci /\
+    assoc k_client_id (r_params r) = Some (PS_ c) /\
+    allowed g ci (v_alg v) = true /\
+    (assoc k_client_id (v_claims v) = None \/ assoc k_client_id (v_claims v) = Some (PS_ c)) /\
+    (assoc k_iss (v_claims v) = Some (PS_ c) \/ (assoc k_iss (v_claims v) = None /\ v_alg v = s_none)) /\
+    match v_key v with
+    | Some n => exists kt, alg_kind (v_alg v) = AlgK kt /\ key_for g c kt n
+    | None => alg_kind (v_alg v) = AlgNone
+    end /\
+    (forall k x, assoc k (v_claims v) = Some x -> assoc k (r_params r) = Some x).
+
+Lemma alg_kind_none a : alg_kind a = AlgNone <-> a = s_none.
+Proof.
+  unfold alg_kind. destruct (str_eqb a s_none) eqn:E.
+  - apply str_eqb_eq in E. tauto.
+  - apply str_eqb_neq in E. split; [|tauto].
+    destruct (starts_with (PS "RS") a || starts_with (PS "PS") a); [discriminate|].
+    destruct (starts_with (PS "HS") a); [discriminate|]. destruct (starts_with (PS "ES") a); discriminate.
+Qed.
+
+Lemma belongs_spec c r v :
+  belongs c r v = true ->
+  (assoc k_client_id (v_claims v) = None \/ assoc k_client_id (v_claims v) = Some (PS_ c)) /\
+  (assoc k_client_id (r_params r) = None \/ assoc k_client_id (r_params r) = Some (PS_ c)) /\
+  (assoc k_iss (v_claims v) = Some (PS_ c) \/ (assoc k_iss (v_claims v) = None /\ v_alg v = s_none)).
+Proof.
+  unfold belongs. intro H. apply andb_true_iff in H as [H H3]. apply andb_true_iff in H as [H1 H2].
+  repeat split.
+  - destruct (assoc k_client_id (v_claims v)); [right; apply pv_eqb_eq in H1; congruence|now left].
+  - destruct (assoc k_client_id (r_params r)); [right; apply pv_eqb_eq in H2; congruence|now left].
+  - destruct (assoc k_iss (v_claims v)); [left; apply pv_eqb_eq in H3; congruence|right].
+    split; auto. rewrite negb_involutive in H3. now apply str_eqb_eq in H3.
+Qed.
+
+Theorem authz_authenticated g d st outer w st' r via :
+  store_ok g st -> hooks_end_post g -> wf_clients g ->
+  authz_parse g d st outer w = (st', Acc r, via) ->
+  forall v, r_vr r = Some v -> authenticated g r v.
+Proof.
+  intros Hs [pre Hh] Hwf H v Hv.
+  apply authz_parse_cases in H as [[_ [_ H]]|[p [cid [r1 [Hver H]]]]]; [exfalso; eapply H; eauto|].
+  rewrite Hh in H. apply rh_last in H as [st0 [r0 [via0 [Hpre [Hpost _]]]]].
+  assert (Hr1 : req_ok g r1) by (apply verify_authz_acc in Hver; apply merge_obj_ok in Hver; tauto).
+  pose proof (rh_req_ok _ _ _ _ _ _ _ _ _ _ Hpre Hs Hr1) as Hr0.
+  pose proof (post_parse_req_ok _ _ _ _ Hpost Hr0) as Hr.
+  apply post_parse_acc in Hpost as [c [ci [u [_ [Hf [Hu [Er Hb]]]]]]].
+  assert (Hv0 : r_vr r0 = Some v) by (subst r; exact Hv).
+  destruct (Hb v Hv0) as [Hbel Hal]. apply belongs_spec in Hbel as [B1 [B2 B3]].
+  destruct (Hr v Hv) as [[_ Hk] Hov].
+  apply get_uri_inl in Hu as [[c' [ci' [Hc' _]]] _].
+  assert (c' = c) by (destruct B2 as [B2|B2]; congruence). subst c'.
+  exists c, ci. repeat split; auto.
+  - subst r. cbn. rewrite assoc_aset_other; auto. apply k_redirect_ne_client.
+  - destruct (v_key v) as [n|]; auto. destruct Hk as [kt [Hk1 Hk2]]. exists kt. split; auto.
+    destruct B3 as [B3|[_ B3]].
+    + apply Hk2; auto. apply find_client_In in Hf as [Hin Hid]. rewrite <- Hid. now apply Hwf.
+    + apply alg_kind_none in B3. congruence.
+Qed.
+
+(* ================================================================ the pushed authorization endpoint *)
+Lemma par_process_spec g st r w urn st' p :
+  par_process g st r w urn = (st', p) ->
+  (st' = st /\ ((exists t, p = PExc t) \/ p = PUnmodelled)) \/
+  (exists s, merge_obj true g (r_params r) w = Acc s /\
+             st' = {| par_db := aset urn {| e_req := s; e_exp := now st + ttl g |} (par_db st); now := now st |} /\
+             (p = PUrn (ttl g) \/ p = PStoredExc x_key)).
+Proof.
+  unfold par_process. destruct (merge_obj true g (r_params r) w) as [s| | | |] eqn:E; intro H.
+  - right. exists s. destruct (has_key k_redirect_uri (r_params s)); inversion H; subst; auto.
+  - left. inversion H; subst. auto.
+  - left. inversion H; subst. eauto.
+  - left. inversion H; subst. eauto.
+  - left. inversion H; subst. auto.
+Qed.
+
+Lemma step_store_ok g d st o st' res : store_ok g st -> step g d st o = (st', res) -> store_ok g st'.
+Proof.
+  intros Hs H. destruct o as [outer w|pusher body w urn|dt]; cbn in H.
+  - destruct (authz_parse g d st outer w) as [[st1 out] via] eqn:E. inversion H; subst.
+    apply authz_frame in E as [_ [E _]]. eapply store_ok_incl; eauto.
+  - destruct (par_parse g st pusher body w) as [r| | | |] eqn:E; try (inversion H; subst; exact Hs).
+    destruct (par_process g st r w urn) as [st1 p] eqn:Ep. inversion H; subst.
+    apply par_process_spec in Ep as [[-> _]|[s [Hm [-> _]]]]; auto.
+    intros u e Hin. cbn in Hin. apply in_aset in Hin as [Hin|Hin]; [|eapply Hs; eauto].
+    inversion Hin; subst. cbn. apply merge_obj_ok in Hm. tauto.
+  - inversion H; subst. exact Hs.
+Qed.
+
+Lemma step_frame g d st o st' res :
+  step g d st o = (st', res) ->
+  (forall u, In u (db_keys st') -> In u (db_keys st) \/ In u (pushed_urn o)) /\
+  (NoDup (db_keys st) -> NoDup (db_keys st')) /\
+  (forall u, In u (redeemed_of res) -> In u (db_keys st) /\ (NoDup (db_keys st) -> ~ In u (db_keys st'))).
+Proof.
+  intro H. destruct o as [outer w|pusher body w urn|dt]; cbn in H.
+  - destruct (authz_parse g d st outer w) as [[st1 out] via] eqn:E. inversion H; subst.
+    pose proof (authz_frame _ _ _ _ _ _ _ _ E) as [_ [F2 F3]]. repeat split; auto.
+    + intros u Hu. left. eapply db_incl_keys; eauto.
+    + destruct out; cbn in H0; try contradiction. destruct via as [u'|]; [|contradiction].
+      destruct H0 as [->|[]]. apply authz_via in E as [e [E1 _]]. apply (in_map fst) in E1. exact E1.
+    + destruct out; cbn in H0; try contradiction. destruct via as [u'|]; [|contradiction].
+      destruct H0 as [->|[]]. apply authz_via in E as [e [_ [_ E3]]]. exact E3.
+  - assert (Hno : forall u, In u (redeemed_of res) -> False).
+    { destruct (par_parse g st pusher body w); try (inversion H; subst; cbn; tauto).
+      destruct (par_process g st r w urn). inversion H; subst. cbn. tauto. }
+    split; [|split]; [| |intros u Hu; exfalso; eapply Hno; eauto].
+    + destruct (par_parse g st pusher body w) as [r| | | |]; try (inversion H; subst; auto; fail).
+      destruct (par_process g st r w urn) as [st1 p] eqn:Ep. inversion H; subst.
+      apply par_process_spec in Ep as [[-> _]|[s [_ [-> _]]]]; auto.
+      intros u Hu. unfold db_keys in Hu. cbn in Hu.
+      destruct (keys_aset urn {| e_req := s; e_exp := now st + ttl g |} (par_db st)) as [K|[_ K]]; rewrite K in Hu.
+      * now left.
+      * apply in_app_or in Hu as [Hu|[Hu|[]]]; [now left|right; cbn; auto].
+    + destruct (par_parse g st pusher body w) as [r| | | |]; try (inversion H; subst; auto; fail).
+      destruct (par_process g st r w urn) as [st1 p] eqn:Ep. inversion H; subst.
+      apply par_process_spec in Ep as [[-> _]|[s [_ [-> _]]]]; auto.
+      intro Hn. unfold db_keys. cbn. now apply nodup_aset.
+  - inversion H; subst. unfold db_keys. cbn. repeat split; auto; contradiction.
+Qed.
+
+(* ================================================================ all histories *)
+Lemma run_cons g d st o rest :
+  run g d st (o :: rest) = (fst (step g d st o), snd (step g d st o)) :: run g d (fst (step g d st o)) rest.
+Proof. cbn [run]. destruct (step g d st o). reflexivity. Qed.
+
+Theorem run_authenticated g d : hooks_end_post g -> wf_clients g ->
+  forall ops st, store_ok g st ->
+  Forall (fun sr => forall r via v, snd sr = RAuthz (Acc r) via -> r_vr r = Some v -> authenticated g r v)
+         (run g d st ops).
+Proof.
+  intros Hh Hwf. induction ops as [|o rest IH]; intros st Hs; [constructor|].
+  rewrite run_cons. destruct (step g d st o) as [st' res] eqn:E. cbn [fst snd]. constructor.
+  - cbn [snd]. intros r via v Hres Hv. subst res.
+    destruct o as [outer w|pusher body w urn|dt]; cbn in E.
+    + destruct (authz_parse g d st outer w) as [[st1 out] via1] eqn:Ea. inversion E; subst.
+      eapply authz_authenticated; eauto.
+    + destruct (par_parse g st pusher body w); try discriminate. destruct (par_process g st r0 w urn). discriminate.
+    + discriminate.
+  - apply IH. eapply step_store_ok; eauto.
+Qed.
+
+Lemma init_store_ok g t0 : store_ok g (init t0).
+Proof. intros u e H. contradiction. Qed.
+
+(* ---------------------------------------------------------------- a pushed request is redeemed at most once *)
+Lemma par_once_gen g d : forall ops st,
+  NoDup (db_keys st) -> NoDup (pushed_urns ops) -> (forall u, In u (pushed_urns ops) -> ~ In u (db_keys st)) ->
+  NoDup (redeemed (run g d st ops)) /\
+  (forall u, In u (redeemed (run g d st ops)) -> In u (db_keys st) \/ In u (pushed_urns ops)).
+Proof.
+  induction ops as [|o rest IH]; intros st Hn Hp Hf; [cbn; split; [constructor|contradiction]|].
+  rewrite run_cons. destruct (step g d st o) as [st' res] eqn:E. cbn [fst snd].
+  pose proof (step_frame _ _ _ _ _ _ E) as [F1 [F2 F3]].
+  unfold pushed_urns in Hp, Hf. cbn [flat_map] in Hp, Hf. fold (pushed_urns rest) in Hp, Hf.
+  assert (Hp' : NoDup (pushed_urns rest)).
+  { clear - Hp. induction (pushed_urn o) as [|a l IHl]; cbn in Hp; auto. inversion Hp; auto. }
+  assert (Hdisj : forall u, In u (pushed_urn o) -> ~ In u (pushed_urns rest)).
+  { clear - Hp. induction (pushed_urn o) as [|a l IHl]; cbn in *; [contradiction|].
+    inversion Hp; subst. intros u [->|Hu]; [intro Hin; apply H1; apply in_or_app; now right|now apply IHl]. }
+  assert (Hf' : forall u, In u (pushed_urns rest) -> ~ In u (db_keys st')).
+  { intros u Hu Hin. apply F1 in Hin as [Hin|Hin].
+    - apply (Hf u); auto. apply in_or_app. now right.
+    - apply (Hdisj u Hin Hu). }
+  destruct (IH st' (F2 Hn) Hp' Hf') as [IH1 IH2].
+  unfold redeemed. cbn [flat_map snd]. fold (redeemed (run g d st' rest)).
+  split.
+  - assert (Hone : redeemed_of res = [] \/ exists u, redeemed_of res = [u]).
+    { destruct res as [[]? | |]; cbn; auto. destruct via; eauto. }
+    destruct Hone as [->|[u Hu]]; [exact IH1|]. rewrite Hu. cbn. constructor; auto.
+    intro Hin. destruct (F3 u) as [G1 G2]; [rewrite Hu; now left|].
+    apply IH2 in Hin as [Hin|Hin]; [now apply (G2 Hn)|].
+    apply (Hf u); auto. apply in_or_app. now right.
+  - intros u Hu. apply in_app_or in Hu as [Hu|Hu].
+    + left. now apply F3.
+    + apply IH2 in Hu as [Hu|Hu].
+      * apply F1 in Hu as [Hu|Hu]; [now left|right]. apply in_or_app. now left.
+      * right. apply in_or_app. now right.
+Qed.
+
+Theorem par_once g d t0 ops : NoDup (pushed_urns ops) -> NoDup (redeemed (run g d (init t0) ops)).
+Proof.
+  intro H. destruct (par_once_gen g d ops (init t0)) as [H1 _]; [constructor|exact H|intros u _ Hin; contradiction|exact H1].
+Qed.
+
+(* ---------------------------------------------------------------- ... and only within the announced lifetime *)
+Definition inv_life (st : state) (h : hist) : Prop :=
+  (forall u e, In (u, e) (par_db st) -> exists t l, In (u, t, l) h /\ e_exp e = (t + l)%Z) /\
+  (forall u t l, In (u, t, l) h -> (t <= now st)%Z).
+
+Lemma step_life g d st h o st' res :
+  inv_life st h -> tick_ok o -> step g d st o = (st', res) ->
+  inv_life st' (hist_after g st o res h) /\
+  (forall r u, res = RAuthz (Acc r) (Some u) ->
+     exists t l, In (u, t, l) h /\ (t <= now st')%Z /\ (now st' <= t + l)%Z).
+Proof.
+  intros [I1 I2] Ht H. destruct o as [outer w|pusher body w urn|dt]; cbn in H.
+  - destruct (authz_parse g d st outer w) as [[st1 out] via] eqn:E. inversion H; subst. cbn [hist_after].
+    pose proof (authz_frame _ _ _ _ _ _ _ _ E) as [F1 [F2 _]]. split.
+    + split.
+      * intros u e Hin. apply I1. now apply F2.
+      * intros u t l Hin. rewrite F1. eapply I2; eauto.
+    + intros r u Hres. inversion Hres; subst. apply authz_via in E as [e [E1 [E2 _]]].
+      destruct (I1 _ _ E1) as [t [l [Hh He]]]. exists t, l. rewrite F1. repeat split; auto.
+      * eapply I2; eauto.
+      * rewrite <- He. exact E2.
+  - split; [|intros r u Hres; destruct (par_parse g st pusher body w); try (inversion H; subst; discriminate);
+             destruct (par_process g st r0 w urn); inversion H; subst; discriminate].
+    destruct (par_parse g st pusher body w) as [r| | | |] eqn:Ep; try (inversion H; subst; cbn; split; auto; fail).
+    destruct (par_process g st r w urn) as [st1 p] eqn:Eq. inversion H; subst.
+    apply par_process_spec in Eq as [[-> Hp]|[s [_ [-> Hp]]]].
+    + assert (hist_after g st (OPush pusher body w urn) (RPush (Acc r) p) h = h) as ->.
+      { destruct Hp as [[t ->]| ->]; reflexivity. }
+      split; auto.
+    + set (h' := hist_after g st (OPush pusher body w urn) (RPush (Acc r) p) h).
+      assert (Hh' : In (urn, now st, ttl g) h' /\ forall x, In x h -> In x h').
+      { subst h'. destruct Hp as [-> | ->]; cbn; split; auto. }
+      destruct Hh' as [Hnew Hold]. split.
+      * intros u e Hin. cbn in Hin. apply in_aset in Hin as [Hin|Hin].
+        -- inversion Hin; subst. cbn. exists (now st), (ttl g). auto.
+        -- destruct (I1 _ _ Hin) as [t [l [A B]]]. exists t, l. auto.
+      * intros u t l Hin. cbn. subst h'.
+        destruct Hp as [-> | ->]; cbn in Hin; destruct Hin as [Hin|Hin];
+          try (inversion Hin; subst; apply Z.le_refl); eapply I2; eauto.
+  - inversion H; subst. cbn [hist_after]. split; [|intros r u Hres; discriminate].
+    split; [exact I1|]. intros u t l Hin. cbn. cbn in Ht. specialize (I2 _ _ _ Hin). lia.
+Qed.
+
+Lemma run_h_cons g d st h o rest :
+  run_h g d st h (o :: rest) =
+  (fst (step g d st o), snd (step g d st o), hist_after g st o (snd (step g d st o)) h)
+    :: run_h g d (fst (step g d st o)) (hist_after g st o (snd (step g d st o)) h) rest.
+Proof. cbn [run_h]. destruct (step g d st o). reflexivity. Qed.
+
+Theorem par_lifetime_gen g d : forall ops st h,
+  inv_life st h -> Forall tick_ok ops ->
+  Forall (fun x => forall r u, snd (fst x) = RAuthz (Acc r) (Some u) ->
+            exists t l, In (u, t, l) (snd x) /\ (t <= now (fst (fst x)))%Z /\ (now (fst (fst x)) <= t + l)%Z)
+         (run_h g d st h ops).
+Proof.
+  induction ops as [|o rest IH]; intros st h Hi Ht; [constructor|].
+  rewrite run_h_cons. destruct (step g d st o) as [st' res] eqn:E. cbn [fst snd].
+  inversion Ht; subst. destruct (step_life _ _ _ _ _ _ _ Hi H1 E) as [Hi' Hr]. constructor.
+  - cbn [fst snd]. intros r u Hres. destruct (Hr r u Hres) as [t [l [A [B C]]]]. exists t, l. repeat split; auto.
+    subst res. destruct o; cbn [hist_after]; auto.
+  - apply IH; auto.
+Qed.
+
+Lemma run_h_run g d : forall ops st h, List.map fst (run_h g d st h ops) = run g d st ops.
+Proof.
+  induction ops as [|o rest IH]; intros st h; [reflexivity|].
+  rewrite run_h_cons, run_cons. cbn [List.map fst]. now rewrite IH.
+Qed.
+
+(* every entry of the history is a push that stored a request at that time and announced that lifetime *)
+Lemma hist_after_spec g st o res h x :
+  In x (hist_after g st o res h) -> In x h \/
+  exists pusher body w u r p, o = OPush pusher body w u /\ res = RPush (Acc r) p /\
+     ((exists e, p = PUrn e /\ x = (u, now st, e)) \/ (exists t, p = PStoredExc t /\ x = (u, now st, ttl g))).
+Proof.
+  destruct o as [outer w|pusher body w urn|dt]; cbn; auto.
+  destruct res as [| out p |]; auto. destruct out; auto. destruct p; auto.
+  - cbn. intros [<-|H]; auto. right. exists pusher, body, w, urn, r, (PUrn expires_in). repeat split; eauto.
+  - cbn. intros [<-|H]; auto. right. exists pusher, body, w, urn, r, (PStoredExc tag). repeat split; eauto.
+Qed.
+
+(* ================================================================ unforgeability (symbolic) *)
+Section Unforgeable.
+  Variable K : term -> Prop.
+  Variable k0 : nat.
+  Hypothesis secret : forall t, K t -> ~ sub (Key k0) t.
+
+  Lemma unforgeable g fb w v :
+    from_jwt g fb w = FOk v -> v_key v = Some k0 ->
+    wobj_sig_term w = Some (sig_term k0 (v_alg v) (v_claims v)) /\
+    (derivable K (sig_term k0 (v_alg v) (v_claims v)) ->
+     exists t0, K t0 /\ sub (sig_term k0 (v_alg v) (v_claims v)) t0).
+  Proof.
+    intros H Hk. apply from_jwt_ok in H as [alg [claims [sg [Hw [Ha [Hc [_ H]]]]]]].
+    destruct H as [[_ H]|[kt [n [s [cands [_ [H2 [H3 [H4 [H5 [H6 _]]]]]]]]]]]; [congruence|].
+    assert (Hn : n = k0) by congruence. rewrite Hn in H4. split.
+    - rewrite Hw, H3. cbn. rewrite H4, H5, H6, Ha, Hc. reflexivity.
+    - intro Hd. unfold sig_term in *. eapply sig_genuine; eauto.
+  Qed.
+End Unforgeable.
+
+(* ================================================================ the boolean guard evaluated by the harness *)
+Lemma cfg_wf_sound g : cfg_wf g = true -> hooks_end_post g /\ wf_clients g.
+Proof.
+  unfold cfg_wf. intro H. repeat (apply andb_true_iff in H as [H ?]). split.
+  - destruct (List.rev (hooks g)) as [|[| | |] l] eqn:E; try discriminate.
+    exists (List.rev l). rewrite <- (rev_involutive (hooks g)), E. reflexivity.
+  - intros ci Hin. rewrite forallb_forall in H2. specialize (H2 ci Hin). destruct (c_id ci); [discriminate|congruence].
+Qed.
+
+(* ================================================================ strict merge: nothing but the object survives *)
+Lemma merge_strict g p w r v :
+  merge_obj true g p w = Acc r -> r_vr r = Some v ->
+  forall k, has_key k (r_params r) = true -> has_key k (v_claims v) = true.
+Proof.
+  intros H Hv k Hk. apply merge_obj_ok in H as [_ [_ H]]. destruct (H v Hv) as [w' [_ [_ Hp]]].
+  rewrite Hp in Hk. apply update_keys in Hk as [Hk|Hk]; auto. eapply restrict_keys; eauto.
+Qed.
+
+(* the registered algorithm is the only one accepted; in particular a client that registered a real algorithm
+   never has an unsigned object accepted *)
+Lemma allowed_registered g ci s a : c_reg ci = RStr s -> allowed g ci a = true -> a = s.
+Proof. unfold allowed. intros -> H. now apply str_eqb_eq in H. Qed.
+
+Lemma authenticated_not_unsigned g r v :
+  authenticated g r v ->
+  forall c ci s, assoc k_client_id (r_params r) = Some (PS_ c) -> find_client (clients g) c = Some ci ->
+    c_reg ci = RStr s -> s <> s_none -> v_alg v = s /\ exists n, v_key v = Some n.
+Proof.
+  intros [c0 [ci0 [Hf [Hc [Hal [_ [_ [Hk _]]]]]]]] c ci s Hc' Hf' Hreg Hs.
+  assert (c0 = c) by congruence. subst c0. assert (ci0 = ci) by congruence. subst ci0.
+  pose proof (allowed_registered _ _ _ _ Hreg Hal) as Ha. split; auto.
+  destruct (v_key v) as [n|]; eauto. apply alg_kind_none in Hk. congruence.
+Qed.
+
+(* ================================================================ the statements of Props/C16.v *)
+Theorem authenticated_all g d t0 ops : cfg_wf g = true ->
+  Forall (fun sr => forall r via v, snd sr = RAuthz (Acc r) via -> r_vr r = Some v -> authenticated g r v)
+         (run g d (init t0) ops).
+Proof.
+  intro H. apply cfg_wf_sound in H as [H1 H2].
+  exact (run_authenticated g d H1 H2 ops (init t0) (init_store_ok g t0)).
+Qed.
+
+Theorem override_all g d t0 ops : cfg_wf g = true ->
+  Forall (fun sr => forall r via v, snd sr = RAuthz (Acc r) via -> r_vr r = Some v ->
+            forall k x, assoc k (v_claims v) = Some x -> assoc k (r_params r) = Some x)
+         (run g d (init t0) ops).
+Proof.
+  intro H. pose proof (authenticated_all g d t0 ops H) as A.
+  eapply Forall_impl; [|exact A]. cbv beta. intros sr Hsr r via v H1 H2.
+  destruct (Hsr r via v H1 H2) as [c [ci [_ [_ [_ [_ [_ [_ Hov]]]]]]]]. exact Hov.
+Qed.
+
+Theorem cross_client_all g d t0 ops : cfg_wf g = true ->
+  Forall (fun sr => forall r via v c, snd sr = RAuthz (Acc r) via -> r_vr r = Some v ->
+            assoc k_client_id (r_params r) = Some (PS_ c) ->
+            (forall x, assoc k_client_id (v_claims v) = Some x -> x = PS_ c) /\
+            (forall x, assoc k_iss (v_claims v) = Some x -> x = PS_ c) /\
+            (forall n, v_key v = Some n -> exists kt, alg_kind (v_alg v) = AlgK kt /\ key_for g c kt n))
+         (run g d (init t0) ops).
+Proof.
+  intro H. pose proof (authenticated_all g d t0 ops H) as A.
+  eapply Forall_impl; [|exact A]. cbv beta. intros sr Hsr r via v c H1 H2 Hc.
+  destruct (Hsr r via v H1 H2) as [c0 [ci [_ [Hc0 [_ [B1 [B2 [B3 _]]]]]]]].
+  assert (c0 = c) by congruence. subst c0. split; [|split].
+  - intros x Hx. destruct B1 as [B1|B1]; rewrite B1 in Hx; [discriminate|now inversion Hx].
+  - intros x Hx. destruct B2 as [B2|[B2 _]]; rewrite B2 in Hx; [now inversion Hx|discriminate].
+  - intros n Hn. rewrite Hn in B3. exact B3.
+Qed.
+
+Theorem par_lifetime g d t0 ops : Forall tick_ok ops ->
+  Forall (fun x => forall r u, snd (fst x) = RAuthz (Acc r) (Some u) ->
+            exists t l, In (u, t, l) (snd x) /\ (t <= now (fst (fst x)))%Z /\ (now (fst (fst x)) <= t + l)%Z)
+         (run_h g d (init t0) [] ops).
+Proof.
+  intro H. apply par_lifetime_gen; auto. split; [intros u e Hin; contradiction|intros u t l Hin; contradiction].
 Qed.
